@@ -5,6 +5,7 @@ import (
 	"go/ast"
 	"go/token"
 	"go/types"
+	"sort"
 	"strings"
 )
 
@@ -80,9 +81,145 @@ func (p *Prog) FactsOf(fi *FuncInfo) *Facts {
 	if v, ok := p.memo[key]; ok {
 		return v.(*Facts)
 	}
-	fa := p.Facts(fi, FactOpts{})
+	if _, busy := p.memo["busy:"+key]; busy {
+		// asked for while its own entry facts are being derived (recursion, or a callee summary needed by a
+		// caller): the analysis without entry facts
+		if v, ok := p.memo["noentry:"+key]; ok {
+			return v.(*Facts)
+		}
+		fa := p.Facts(fi, FactOpts{})
+		p.memo["noentry:"+key] = fa
+		return fa
+	}
+	p.memo["busy:"+key] = true
+	entry := p.entryFactsFromCallers(fi)
+	delete(p.memo, "busy:"+key)
+	fa := p.Facts(fi, FactOpts{Entry: entry})
 	p.memo[key] = fa
 	return fa
+}
+
+// entryFactsFromCallers: what holds on entry to an unexported function all of whose call sites are known
+// (it is never used as a value, never started with go or deferred): the facts common to all its call sites,
+// translated to its parameters. A guard tested by the caller of an extracted helper thus guards the
+// helper's body. Facts that mention locals of the caller other than the arguments are dropped.
+func (p *Prog) entryFactsFromCallers(fi *FuncInfo) []*Term {
+	if fi == nil || fi.Lit != nil || fi.Obj == nil || fi.Decl == nil || fi.Obj.Exported() || fi.Obj.Name() == "init" || fi.Obj.Name() == "main" {
+		return nil
+	}
+	if p.usedAsValue(fi.Obj) || p.implementsSomeInterface(fi.Obj) {
+		return nil
+	}
+	sites := p.CallsTo(fi.Obj)
+	if len(sites) == 0 || len(sites) > 8 {
+		return nil
+	}
+	var params []*types.Var // receiver first (nil when absent), then parameters in order
+	params = append(params, p.recvVar(fi))
+	for _, fl := range fi.Decl.Type.Params.List {
+		if len(fl.Names) == 0 {
+			params = append(params, nil)
+		}
+		for _, nm := range fl.Names {
+			v, _ := p.Info.Defs[nm].(*types.Var)
+			params = append(params, v)
+		}
+	}
+	isParam := map[types.Object]bool{}
+	for _, v := range params {
+		if v != nil {
+			isParam[v] = true
+		}
+	}
+	var common map[string]*Term
+	for _, s := range sites {
+		switch p.parents[s.Call].(type) {
+		case *ast.GoStmt, *ast.DeferStmt:
+			return nil
+		}
+		if sig, ok := fi.Obj.Type().(*types.Signature); ok && sig.Variadic() {
+			return nil
+		}
+		fs := p.FactsOf(s.Fn).AtNode(s.Call)
+		args := append([]*Term{s.Recv}, s.Args...)
+		if len(args) != len(params) {
+			return nil
+		}
+		here := map[string]*Term{}
+		cands := []*Term{}
+		for _, a := range fs.Atoms {
+			cands = append(cands, a)
+		}
+		for _, a := range fs.resolvedAtoms() {
+			cands = append(cands, a)
+		}
+		for _, a := range cands {
+			t := a
+			for i, arg := range args {
+				if arg == nil || params[i] == nil || arg.IsConst() {
+					continue
+				}
+				t = replaceByKey(t, arg.Key(), tVar(params[i]))
+			}
+			foreign := false
+			t.Walk(func(x *Term) {
+				if x.Op != "var" {
+					return
+				}
+				if v, ok := x.Obj.(*types.Var); ok && !v.IsField() && v.Parent() != p.Types.Scope() && v.Pkg() == p.Types && !isParam[v] {
+					foreign = true
+				}
+			})
+			if !foreign {
+				t = normTerm(t)
+				here[t.Key()] = t
+			}
+		}
+		if common == nil {
+			common = here
+		} else {
+			for k := range common {
+				if _, ok := here[k]; !ok {
+					delete(common, k)
+				}
+			}
+		}
+		if len(common) == 0 {
+			return nil
+		}
+	}
+	var out []*Term
+	for _, t := range common {
+		out = append(out, t)
+	}
+	sort.Slice(out, func(i, j int) bool { return out[i].Key() < out[j].Key() })
+	return out
+}
+
+// implementsSomeInterface: f is a method whose name occurs in an interface of the package or of a type it is
+// assigned to — conservatively: any method with the name of a method of an interface type declared in the package
+// or in the standard interfaces the package's types are used through (it can then be called dynamically).
+func (p *Prog) implementsSomeInterface(f *types.Func) bool {
+	sig, ok := f.Type().(*types.Signature)
+	if !ok || sig.Recv() == nil {
+		return false
+	}
+	key := "ifaceMethodNames"
+	var names map[string]bool
+	if v, ok := p.memo[key]; ok {
+		names = v.(map[string]bool)
+	} else {
+		names = map[string]bool{}
+		for _, tv := range p.Info.Types {
+			if it, ok := tv.Type.Underlying().(*types.Interface); ok {
+				for i := 0; i < it.NumMethods(); i++ {
+					names[it.Method(i).Name()] = true
+				}
+			}
+		}
+		p.memo[key] = names
+	}
+	return names[f.Name()]
 }
 
 // Diff is the canonical signed-difference term _itimediff(a, b) after helper expansion.
@@ -194,7 +331,7 @@ func (p *Prog) Assignments(fi *FuncInfo, v *types.Var) []assignInfo {
 type FieldStore struct {
 	Node  ast.Node
 	Fn    *FuncInfo
-	Base  *Term    // x (nil for composite literals)
+	Base  *Term    // x (for a composite literal: the local it initialises, v := T{…} / v = &T{…} / var v = T{…}; nil otherwise)
 	Rhs   ast.Expr // nil for ++/--
 	Tok   token.Token
 	InLit bool
@@ -229,14 +366,21 @@ func (p *Prog) FieldStores(f *types.Var) []FieldStore {
 					}
 				}
 			case *ast.CompositeLit:
-				for _, el := range x.Elts {
+				base := p.litBoundTo(x)
+				for i, el := range x.Elts {
 					kv, ok := el.(*ast.KeyValueExpr)
 					if !ok {
+						// positional literal T{a, b}: the i-th element initialises the i-th field
+						if tv, okT := p.Info.Types[x]; okT {
+							if st, isS := tv.Type.Underlying().(*types.Struct); isS && i < st.NumFields() && st.Field(i).Origin() == f {
+								out = append(out, FieldStore{Node: el, Fn: fi, Base: base, Rhs: el, Tok: token.ASSIGN, InLit: true})
+							}
+						}
 						continue
 					}
 					if id, ok := kv.Key.(*ast.Ident); ok {
 						if o, ok := p.Info.Uses[id].(*types.Var); ok && o.IsField() && o.Origin() == f {
-							out = append(out, FieldStore{Node: kv, Fn: fi, Rhs: kv.Value, Tok: token.ASSIGN, InLit: true})
+							out = append(out, FieldStore{Node: kv, Fn: fi, Base: base, Rhs: kv.Value, Tok: token.ASSIGN, InLit: true})
 						}
 					}
 				}
@@ -473,4 +617,237 @@ func (p *Prog) holdsAtAllCallers(fi *FuncInfo, depth int, pred func(fs *FactSet,
 		}
 	}
 	return true
+}
+
+// freshPoolValue: e evaluates to (a slice of) a buffer just taken from the packet pool — a Get() call, possibly
+// resliced; a local all of whose assignments are such values; or a call of a package function every return
+// of which is such a value (an extracted copy helper). depth bounds the helper nesting.
+func (p *Prog) freshPoolValue(fi *FuncInfo, e ast.Expr, depth int) bool {
+	get := p.Method("bufferPool", "Get")
+	e = ast.Unparen(e)
+	switch x := e.(type) {
+	case *ast.SliceExpr:
+		return p.freshPoolValue(fi, x.X, depth)
+	case *ast.CallExpr:
+		f := p.Callee(x)
+		if f == nil {
+			return false
+		}
+		if f == get {
+			return true
+		}
+		if depth <= 0 {
+			return false
+		}
+		h := p.FuncOf(f)
+		if h == nil || h.Body == nil {
+			return false
+		}
+		n, all := 0, true
+		ast.Inspect(h.Body, func(y ast.Node) bool {
+			if _, isLit := y.(*ast.FuncLit); isLit {
+				return false
+			}
+			if rs, ok := y.(*ast.ReturnStmt); ok {
+				n++
+				if len(rs.Results) != 1 || !p.freshPoolValue(h, rs.Results[0], depth-1) {
+					all = false
+				}
+			}
+			return true
+		})
+		return n > 0 && all
+	case *ast.Ident:
+		v, _ := p.Info.Uses[x].(*types.Var)
+		if v == nil || fi == nil || p.isParam(v) {
+			return false
+		}
+		as := p.Assignments(fi, v)
+		if len(as) == 0 {
+			return false
+		}
+		for _, a := range as {
+			if a.Rhs == nil || !p.freshPoolValue(fi, a.Rhs, depth) {
+				return false
+			}
+		}
+		return true
+	}
+	return false
+}
+
+// sameSeqTest: a says that the sequence numbers x and y are equal — x == y, or _itimediff(x, y) == 0 (either
+// operand order), temporaries defined once resolved.
+func (p *Prog) sameSeqTest(fi *FuncInfo, a, x, y *Term) bool {
+	ra := normTerm(p.ExpandHelpers(p.resolveSingleDefs(fi, a)))
+	for _, w := range []*Term{eq(x, y), eq(y, x), eq(p.Diff(x, y), tConst(0)), eq(p.Diff(y, x), tConst(0)), eq(tConst(0), p.Diff(x, y)), eq(tConst(0), p.Diff(y, x))} {
+		if ra.Key() == w.Key() || ra.Key() == normTerm(p.ExpandHelpers(w)).Key() {
+			return true
+		}
+	}
+	return false
+}
+
+// derefNamed: the named type of t or of what t points to.
+func derefNamed(t types.Type) (*types.Named, bool) {
+	if pt, ok := t.(*types.Pointer); ok {
+		t = pt.Elem()
+	}
+	n, ok := t.(*types.Named)
+	return n, ok
+}
+
+// usedAsValue: the function is mentioned somewhere other than in the callee position of a call
+// (stored, passed, deferred through a variable): its callers are then not all known from CallsTo.
+func (p *Prog) usedAsValue(f *types.Func) bool {
+	used := false
+	for id, o := range p.Info.Uses {
+		fo, ok := o.(*types.Func)
+		if !ok || fo.Origin() != f.Origin() {
+			continue
+		}
+		var n ast.Node = id
+		par := p.parents[n]
+		for {
+			switch x := par.(type) {
+			case *ast.SelectorExpr:
+				if x.Sel == n {
+					n, par = par, p.parents[par]
+					continue
+				}
+			case *ast.IndexExpr: // explicit instantiation f[T]
+				if x.X == n {
+					n, par = par, p.parents[par]
+					continue
+				}
+			case *ast.ParenExpr:
+				n, par = par, p.parents[par]
+				continue
+			}
+			break
+		}
+		if call, ok := par.(*ast.CallExpr); ok && call.Fun == n {
+			continue
+		}
+		used = true
+	}
+	return used
+}
+
+// litBoundTo: the local variable a composite literal (possibly under &) directly initialises or is assigned to, as a term; nil otherwise.
+func (p *Prog) litBoundTo(lit *ast.CompositeLit) *Term {
+	var n ast.Node = lit
+	par := p.parents[n]
+	for {
+		switch x := par.(type) {
+		case *ast.ParenExpr:
+			n, par = par, p.parents[par]
+			continue
+		case *ast.UnaryExpr:
+			if x.Op == token.AND {
+				n, par = par, p.parents[par]
+				continue
+			}
+		}
+		break
+	}
+	var lhs ast.Expr
+	switch x := par.(type) {
+	case *ast.AssignStmt:
+		if len(x.Lhs) == len(x.Rhs) {
+			for i, e := range x.Rhs {
+				if e == n {
+					lhs = x.Lhs[i]
+				}
+			}
+		}
+	case *ast.ValueSpec:
+		for i, e := range x.Values {
+			if e == n && i < len(x.Names) {
+				lhs = x.Names[i]
+			}
+		}
+	}
+	id, ok := lhs.(*ast.Ident)
+	if !ok || id.Name == "_" {
+		return nil
+	}
+	o := p.Info.Defs[id]
+	if o == nil {
+		o = p.Info.Uses[id]
+	}
+	if v, ok := o.(*types.Var); ok && !v.IsField() && v.Parent() != p.Types.Scope() {
+		return tVar(v)
+	}
+	return nil
+}
+
+// singleCaller: fi is an unexported function or method with exactly one call site in the package (not started
+// with go, not deferred, never used as a value): the calling function and the call. A rule about what precedes
+// a statement of fi can then be continued at that call.
+func (p *Prog) singleCaller(fi *FuncInfo) (*FuncInfo, *ast.CallExpr, bool) {
+	if fi == nil || fi.Lit != nil || fi.Obj == nil || fi.Obj.Exported() || p.usedAsValue(fi.Obj) || p.implementsSomeInterface(fi.Obj) {
+		return nil, nil, false
+	}
+	sites := p.CallsTo(fi.Obj)
+	if len(sites) != 1 || sites[0].Fn == fi {
+		return nil, nil, false
+	}
+	switch p.parents[sites[0].Call].(type) {
+	case *ast.GoStmt, *ast.DeferStmt:
+		return nil, nil, false
+	}
+	return sites[0].Fn, sites[0].Call, true
+}
+
+// helperBoundArg: e is a local whose only definition is `e, … := h(args…)` with h an unexported function of the
+// package (an extracted helper): h, the argument terms of that call and the other variables bound by the same
+// statement (e.g. the ok flag). nil otherwise.
+func (p *Prog) helperBoundArg(fi *FuncInfo, e ast.Expr) (*FuncInfo, []*Term, []*types.Var) {
+	id, ok := ast.Unparen(e).(*ast.Ident)
+	if !ok {
+		return nil, nil, nil
+	}
+	v, _ := p.Info.Uses[id].(*types.Var)
+	if v == nil {
+		return nil, nil, nil
+	}
+	as := p.Assignments(rootFuncInfo(fi), v)
+	if len(as) != 1 {
+		return nil, nil, nil
+	}
+	st, ok := as[0].Node.(*ast.AssignStmt)
+	if !ok || len(st.Rhs) != 1 || len(st.Lhs) < 1 {
+		return nil, nil, nil
+	}
+	if lid, ok := st.Lhs[0].(*ast.Ident); !ok || (p.Info.Defs[lid] != v && p.Info.Uses[lid] != v) {
+		return nil, nil, nil
+	}
+	call, ok := ast.Unparen(st.Rhs[0]).(*ast.CallExpr)
+	if !ok {
+		return nil, nil, nil
+	}
+	f := p.Callee(call)
+	if f == nil || f.Pkg() != p.Types || f.Exported() {
+		return nil, nil, nil
+	}
+	h := p.FuncOf(f)
+	if h == nil || h.Body == nil {
+		return nil, nil, nil
+	}
+	var args []*Term
+	for _, a := range call.Args {
+		args = append(args, p.Term(a))
+	}
+	var others []*types.Var
+	for _, l := range st.Lhs[1:] {
+		if lid, ok := l.(*ast.Ident); ok {
+			if ov, ok := p.Info.Defs[lid].(*types.Var); ok {
+				others = append(others, ov)
+			} else if ov, ok := p.Info.Uses[lid].(*types.Var); ok {
+				others = append(others, ov)
+			}
+		}
+	}
+	return h, args, others
 }
